@@ -49,6 +49,10 @@ def scenarios(prop, quick, seed):
         if prop == "C16":
             # (with an InvalidateAll in half of them: it replays the buffered events itself before it discards the entries)
             sc = dict(base, size=["count", "weight", "count"][j % 3], max=2 + j % 4, wt=[1, 0, 2, 1, 3], smallbuf=1, stale=0, invall=[0, 1, 0, 2][j % 4])
+            if j % 4 == 1:
+                # "long pass": the drain bound lowered to the size of the small buffer and a slow pass, so that one pass meets more
+                # events than it may replay
+                sc.update(smallbuf=2, size="count", max=3 + j % 3, invall=0, policy="free", reads=0)
             if j % 2 == 0:
                 # one producer on one key with a same-goroutine executor: the order of its events is observable (C16.producer_order)
                 sc.update(writers=1, keys=1, syncexec=1, ops=14 + j % 5, policy="free", size="count", max=3, reads=0, oneprod=1)
@@ -73,6 +77,8 @@ def scenarios(prop, quick, seed):
                 sc["expiry"] = 0       # no maintenance at all: the fast notification path
         if sc["smallbuf"] and not sc.get("oneprod"):
             sc["writers"], sc["ops"], sc["keys"] = 3 + j % 2, 8 + j % 4, 3 + j % 3
+            if sc["smallbuf"] == 2:
+                sc["writers"], sc["ops"] = 4, 14 + j % 5
         if sc["stale"]:
             # room for several entries in one queue, so that a replaced node has neighbours
             sc["keys"], sc["max"] = 2 + j % 2, max(sc["max"], 3 + j % 3)
